@@ -50,6 +50,38 @@ func TestStandinMonthWeeks(t *testing.T) {
 				if prevFirst != nil {
 					expect(!prevFirst.IsAfter(last) && last.Subtract(prevFirst) <= 6, "%d-%d start %d: last listed week starts %s, month ends %s", y, m, start, prevFirst.ToYmd(), last.ToYmd())
 				}
+				// month-separated stepping walks the sequence (month, week 1..n), (next month, week 1..) one position per
+				// step, in both directions, also across a year end: a position is (year, month, index, first day)
+				if y > 1 && y < 9998 {
+					pos := func(w *SolarWeek) string {
+						return fmt.Sprintf("%d-%d#%d@%s", w.GetYear(), w.GetMonth(), w.GetIndex(), w.GetFirstDay().ToYmd())
+					}
+					w1 := NewSolarWeekFromYmd(y, m, 1, start)
+					cur := w1
+					for k := 1; k <= n; k++ {
+						expect(cur.GetYear() == y && cur.GetMonth() == m && cur.GetIndex() == k, "%d-%d start %d: position %d of the forward walk is %s", y, m, start, k, pos(cur))
+						nx := cur.Next(1, true)
+						if k < n {
+							expect(nx.GetYear() == y && nx.GetMonth() == m && nx.GetIndex() == k+1 && nx.GetFirstDay().Subtract(cur.GetFirstDay()) == 7, "%d-%d start %d: Next(1,true) from week %d reaches %s", y, m, start, k, pos(nx))
+							bk := nx.Next(-1, true)
+							expect(pos(bk) == pos(cur), "%d-%d start %d: Next(-1,true) from %s reaches %s, not %s", y, m, start, pos(nx), pos(bk), pos(cur))
+						} else {
+							ny, nm := y, m+1
+							if nm > 12 {
+								ny, nm = y+1, 1
+							}
+							expect(nx.GetYear() == ny && nx.GetMonth() == nm && nx.GetIndex() == 1, "%d-%d start %d: Next(1,true) from the last week reaches %s", y, m, start, pos(nx))
+							bk := nx.Next(-1, true)
+							expect(pos(bk) == pos(cur), "%d-%d start %d: Next(-1,true) from %s reaches %s, not %s", y, m, start, pos(nx), pos(bk), pos(cur))
+							// n steps at once from week 1 = one step at a time; and back again
+							jump := w1.Next(n, true)
+							expect(pos(jump) == pos(nx), "%d-%d start %d: Next(%d,true) from week 1 reaches %s, stepwise %s", y, m, start, n, pos(jump), pos(nx))
+							back := nx.Next(-n, true)
+							expect(pos(back) == pos(w1), "%d-%d start %d: Next(-%d,true) from %s reaches %s, not %s", y, m, start, n, pos(nx), pos(back), pos(w1))
+						}
+						cur = nx
+					}
+				}
 				// month-separated stepping from the middle of the month moves one week forward / back
 				if y > 1 && y < 9998 {
 					mid := NewSolarWeekFromYmd(y, m, 15, start)
